@@ -43,7 +43,7 @@ class C12(Check):
         "HiGHS is an oracle (certificate-checked exact simplex on the model side); its status for unbounded problems is observed, not trusted",
     ]
     assumptions = ["floats denote exact rationals; optimum compared within 1e-6 relative"]
-    min_branches = {"value": 300, "None": 150, "ValueError": 60, "bounds": 100}
+    min_branches = {"value": 300, "None": 150, "ValueError": 60, "bounds": 100, "varfree": 4}
 
     def generate(self, rng, n, tier):
         out = []
@@ -55,6 +55,17 @@ class C12(Check):
                     for mx in (True, False):
                         out.append({"kind": "opt", "c": {"ins": ["i"], "outs": ["o"], "a": [], "g": [dict(c=dict(t["c"]), k=t["k"]) for t in l]},
                                     "obj": {v: 1.0}, "max": mx, "tag": "grid"})
+        # contracts all of whose rows are variable-free (`0 <= k`, reachable as "x - x <= k", by renaming x to y in `x - y <= k`, or from
+        # a dictionary), unsatisfiable when some k < 0: outside C11's range (its quantifier excludes such terms), inside C12's
+        for _ in range(max(6, n // 200)):
+            ks = [float(rng.choice([-2, -1, -0.5, 0, 1, 3])) for _r in range(rng.randint(1, 3))]
+            rows = [{"c": {}, "k": k} for k in dict.fromkeys(ks)]
+            side = rng.random() < 0.5
+            c = {"a": rows if side else [], "g": [] if side else rows, "ins": ["i"], "outs": ["o"]}
+            if rng.random() < 0.25:
+                out.append({"kind": "bounds", "c": c, "var": rng.choice(["i", "o"]), "tag": "varfree"})
+            else:
+                out.append({"kind": "opt", "c": c, "obj": {rng.choice(["i", "o"]): float(rng.choice([-2, 1, 3]))}, "max": rng.random() < 0.5, "tag": "varfree"})
         for _ in range(n):
             vs = ["i", "j", "o", "p", "q"][: rng.randint(1, 5)]
             ins = vs[: max(1, len(vs) // 2)]
@@ -155,6 +166,9 @@ class C12(Check):
                     sig = "optimize:ValueError-but-" + ("unbounded" if kind == "None" else "optimum-exists") + ("-no-constraints" if not (c["a"] or c["g"]) else "")
                     return {"signature": sig, "what": f"ValueError raised although the contract is satisfiable (truth: {kind} {val})", "witness": case}
                 continue
+            if kind == "ValueError" and all(not t["c"] for t in c["a"] + c["g"]):
+                return {"signature": "optimize:no-error-on-unsatisfiable:only-variable-free-rows",
+                        "what": f"returned {got} for a contract whose rows are all variable-free and one of them reads 0 <= negative (unsatisfiable)", "witness": case}
             if kind == "ValueError":
                 return {"signature": "optimize:no-error-on-unsatisfiable", "what": f"returned {got} for an unsatisfiable contract", "witness": case}
             if kind == "None" and got is not None:
@@ -166,9 +180,10 @@ class C12(Check):
     def branch(self, case, impl, model):
         if case["kind"] == "bounds":
             return ["bounds"]
+        extra = ["varfree"] if case.get("tag") == "varfree" else []
         if "err" in impl:
-            return [impl["err"]]
-        return ["None" if impl["ok"] is None else "value"]
+            return [impl["err"]] + extra
+        return ["None" if impl["ok"] is None else "value"] + extra
 
     def nontrivial(self, case, impl):
         return bool(case["c"]["a"] or case["c"]["g"])
